@@ -530,6 +530,18 @@ func c15Check(hist []string) ([][2]string, string) {
 	return out, key
 }
 
+// C09sio: the sio host's own persistence as a question about state being plain data - the crew histories of
+// C15 at a smaller depth (restart from the state file sio.Stdio writes must be unobservable).
+var (
+	c15Prefix        = "C15"
+	c15DepthOverride = 0
+)
+
+func C09sio(c *vh.Ctx) {
+	c15Prefix, c15DepthOverride = "C09/sio-host", 3
+	C15(c)
+}
+
 // C15: reported changes suffice to persist a crew and restart it anywhere.
 func C15(c *vh.Ctx) {
 	if c.Replay != "" {
@@ -538,12 +550,15 @@ func C15(c *vh.Ctx) {
 			c.Eval()
 			vs, _ := c15Check(cs.History)
 			for _, v := range vs {
-				c.Violation("C15/"+v[0], v[1], cs)
+				c.Violation(c15Prefix+"/"+v[0], v[1], cs)
 			}
 		}
 		return
 	}
 	depth := c.Pick(4, 5)
+	if c15DepthOverride > 0 {
+		depth = c15DepthOverride
+	}
 	c.Bound("history_max", depth)
 	c.Rule(fmt.Sprintf("breadth-first search over histories of crew operations on a real sio.Crew (fresh crew + replay per successor; states deduplicated by live machines, captain state, shadow store and change cache): alphabet of %d operations (create m1/m2/boss with specs X/Y/Z, replace m1's state, replace m1's spec, delete m1, messages to all / to m1, a machine that deletes and re-creates m1 within one ProcessMsg, deletion of m2 by the host and by a machine, a captain operation that fails, captain messages with two updates of which the later one fails (also addressed to the machine the first one updates), and *restart*: the crew is replaced by one rebuilt from the shadow store, so every message boundary is a crash-and-restart point and the search goes on from the restarted crew), depth up to the bound. Invariant in every state: a store that folded every Result.Changed (as sio.Stdio does) equals the live crew (node, bindings, spec; deleted machines absent; a stored machine without state is start/{}). The same histories are also replayed with the repository's own consumer as the host - sio.Stdio folding Result.Changed into its state map and writing the state file after every message, restart = siostd's boot path reading that file back - and after every message the file must describe the live crew. Differential in every state: a crew rebuilt from that store through SetMachine (the siostd boot path) and the original give equal emissions, equal next states and equal stores (each crew's reported changes folded into its own copy of the store, which must also equal that crew) on %d continuations of length <= 2.", len(c15Ops), len(c15Conts)))
 	seen := map[string]bool{}
@@ -566,11 +581,11 @@ func C15(c *vh.Ctx) {
 				vs, key := c15Check(nh)
 				for _, v := range vs {
 					if reported[v[0]] {
-						c.R.ViolationKeys["C15/"+v[0]]++
+						c.R.ViolationKeys[c15Prefix+"/"+v[0]]++
 						continue
 					}
 					reported[v[0]] = true
-					c.Violation("C15/"+v[0], v[1], c15Case{History: nh})
+					c.Violation(c15Prefix+"/"+v[0], v[1], c15Case{History: nh})
 				}
 				if key == "" || seen[key] {
 					continue
